@@ -7,6 +7,8 @@ P=$(python3 -c "import json,sys;print(json.load(open('$D/meta.json'))['property'
 cd /verif
 if ! git -C /repo diff --quiet; then echo "/repo has local modifications; refusing"; exit 2; fi
 git -C /repo apply "$D/patch.diff" || { echo "patch does not apply"; exit 2; }
+cp "evidence/$P.json" "/tmp/.ev-$P.json" 2>/dev/null
 ./check "$P" --tier "$TIER" > "$D/result-$TIER.txt" 2>&1; RC=$?
+cp "/tmp/.ev-$P.json" "evidence/$P.json" 2>/dev/null; rm -f "/tmp/.ev-$P.json"
 git -C /repo checkout -- . ; git -C /repo clean -fdq -- . 2>/dev/null
 if [ $RC -eq 1 ] && grep -q "^VIOLATION property=$P" "$D/result-$TIER.txt"; then echo "DETECTED $D ($TIER): $(grep '^VIOLATION' "$D/result-$TIER.txt" | head -1)"; else echo "MISSED $D ($TIER) rc=$RC"; fi
